@@ -6,7 +6,7 @@
 From Coq Require Import String List NArith ZArith Bool Lia.
 From Fabio Require Import Lib.Outcome Lib.Bytes Model.WtF64 Model.TableCmd Model.RouteText Model.RouteCmd
      Proofs.TableCmd Proofs.RouteCmd
-     Model.Consul Model.Watch Model.ConsulSpec Proofs.Consul Proofs.Watch Model.RegistryTable.
+     Model.Consul Model.Watch Model.ConsulSpec Proofs.Consul Proofs.Watch Model.RegistryTable Proofs.ManualOnTop.
 Import ListNotations.
 Local Open Scope N_scope.
 
@@ -101,7 +101,7 @@ Section Compose.
   Notation centry_of := (centry_of pw canon gl env prefix).
   Notation catalog_of := (catalog_of pw canon gl env prefix).
   Notation render := render_intent.
-  Notation valid := (fun i : intent => validate pw canon gl (render_intent i)).
+  Notation valid := (validate_intent pw canon gl).
   Notation bld := (table_builder pw canon gl).
 
   Lemma filter_map_comm {A B} (p : B -> bool) (f : A -> B) l :
@@ -117,7 +117,14 @@ Section Compose.
   Definition vintents (g : reg) : list intent := filter valid (intents env prefix g).
 
   Lemma build_vintents g : RouteCmd.build pw canon gl env prefix g = map render (vintents g).
-  Proof. unfold RouteCmd.build, vintents. apply filter_map_comm. Qed.
+  Proof. reflexivity. Qed.
+
+  (* a validated intent's command is, in particular, accepted by NewTable on its own *)
+  Lemma validate_intent_validate i : validate_intent pw canon gl i = true -> validate pw canon gl (render i) = true.
+  Proof.
+    unfold validate_intent, validate_cmd, validate. intros H.
+    repeat (apply andb_true_iff in H as [H ?]). apply andb_true_iff. split; assumption.
+  Qed.
 
   (* (1) the commands Model/Consul.v's config generation takes for an entry are C14's [build]
      of that entry; the model's own consistency check (at most one command per routing tag)
@@ -128,7 +135,7 @@ Section Compose.
     assert (length (RouteCmd.build pw canon gl env prefix (r_reg r))
             <= length (Consul.route_tags prefix (g_tags (r_reg r))))%nat as H.
     { rewrite route_tags_agree, <- (intents_length env). unfold RouteCmd.build.
-      etransitivity; [apply filter_len_le | now rewrite map_length]. }
+      rewrite map_length. apply filter_len_le. }
     apply PeanoNat.Nat.leb_le in H. now rewrite H.
   Qed.
 
@@ -276,6 +283,45 @@ Section Compose.
       destruct Hd as [<-|[]]. exists l, d', url. auto.
   Qed.
 
+  (* ---- ANY manual text (add, del, weight) on top of the service routes ---- *)
+  Lemma parse_lines_ok_app_r a b : is_ok (parse_lines pw (a ++ b)) = true -> exists db, parse_lines pw b = Ok db.
+  Proof.
+    rewrite parse_lines_independent, forallb_app. intros H. apply andb_true_iff in H as [_ H].
+    rewrite <- parse_lines_independent in H. destruct (parse_lines pw b) as [db| |]; [eauto | discriminate | discriminate].
+  Qed.
+
+  Lemma core_trip d url : core (trip d url) = add_core d url.
+  Proof. reflexivity. Qed.
+
+  (* the operator's commands are applied, in order, to the table of the service routes *)
+  Theorem manual_on_top (ls : list str) (m : str) (dm : list def) :
+    Forall (good_line pw canon gl) ls -> parse pw m = Ok dm ->
+    exists t0, TableCmd.run canon gl (flat_map (fun l => olist (ldef pw l)) ls) = Ok t0
+      /\ new_table pw canon gl (config_text ls) = Ok (sort_table t0)
+      /\ new_table pw canon gl (next_text (config_text ls) m)
+         = (do t <- run_from canon gl t0 dm; Ok (sort_table t))%outcome
+      /\ (forall x, In x (flat t0) -> exists l d url, In l ls /\ parse_line pw l = Ok (Some d)
+                                                   /\ canon (d_dst d) = Some url /\ x = trip d url).
+  Proof.
+    intros Hall Hm. pose proof (parse_good_lines ls Hall) as Hs. rewrite Forall_forall in Hall.
+    set (ds := flat_map (fun l => olist (ldef pw l)) ls) in *.
+    assert (Forall (addable canon gl) ds) as Hadd_s.
+    { apply Forall_forall. intros d Hd. apply in_flat_map in Hd as (l & Hl & Hd).
+      destruct (Hall l Hl) as (_ & _ & d' & Hd' & Ha). unfold ldef in Hd. rewrite Hd' in Hd.
+      destruct Hd as [<-|[]]. exact Ha. }
+    destruct (run_from_adds canon gl _ [] Hadd_s) as (t0 & Hrun & _ & _ & Horig).
+    exists t0. split; [exact Hrun|]. split; [|split].
+    - unfold new_table. rewrite Hs. cbn [bind]. unfold TableCmd.run. rewrite Hrun. reflexivity.
+    - assert (parse pw (next_text (config_text ls) m) = Ok (ds ++ dm)) as Hparse.
+      { unfold parse, next_text in *. rewrite split_byte_app_sep. now apply parse_lines_app. }
+      unfold new_table. rewrite Hparse. cbn [bind]. unfold TableCmd.run in *. rewrite run_from_app, Hrun. cbn [bind].
+      destruct (run_from canon gl t0 dm); reflexivity.
+    - intros x Hx. destruct (Horig x Hx) as [[]|(d & url & Hd & Hu & ->)].
+      apply in_flat_map in Hd as (l & Hl & Hd). unfold ldef in Hd.
+      destruct (parse_line pw l) as [[d'|]| |] eqn:E; cbn [olist In] in Hd; try contradiction.
+      destruct Hd as [<-|[]]. exists l, d', url. auto.
+  Qed.
+
   (* sorting the generated lines only permutes the intents *)
   Lemma insert_desc_map {A} (f : A -> str) x ys :
     exists zs, Consul.insert_desc (f x) (map f ys) = map f zs /\ forall z, In z zs <-> z = x \/ In z ys.
@@ -358,7 +404,7 @@ Section Compose.
           + unfold vintents. apply filter_In. split; [exact Hi | exact Hv]. }
       split.
       - apply Forall_forall. intros l Hl. apply in_map_iff in Hl as [i [<- Hi]].
-        apply Hperm, Hchar in Hi as [r [_ [_ [_ [_ Hv]]]]]. now apply validate_good_line.
+        apply Hperm, Hchar in Hi as [r [_ [_ [_ [_ Hv]]]]]. now apply validate_good_line, validate_intent_validate.
       - intros i. rewrite Hperm. apply Hchar.
     Qed.
 
@@ -400,7 +446,7 @@ Section Compose.
       intros Hr Hh Hi He. exists r. split; [exact Hr|]. split; [|split; [exact Hh|split; [exact Hi|]]].
       - destruct (expr_inv pw canon gl i He) as (Hs & _).
         destruct (intent_svc_tags _ _ Hi) as [Hn _]. rewrite Hn in Hs. intros E0. rewrite E0 in Hs. discriminate.
-      - exact (expressible_validates pw canon gl i He).
+      - exact (expressible_validates_intent pw canon gl i He).
     Qed.
 
     (* C01, all layers, ALL catalogs, with the operator's 'route add' commands on top *)
@@ -415,7 +461,7 @@ Section Compose.
       exists (config_text (map render is1)), t. split; [exact Htext|]. split; [exact Ht|].
       assert (forall i, routed_intent i -> exists d, parse_line pw (render i) = Ok (Some d) /\ def_target canon t d) as H1.
       { intros i Hi. pose proof Hi as [r [_ [_ [_ [_ Hv]]]]].
-        destruct (validate_good_line pw canon gl i Hv) as (_ & _ & d & Hd & _). exists d. split; [exact Hd|].
+        destruct (validate_good_line pw canon gl i (validate_intent_validate i Hv)) as (_ & _ & d & Hd & _). exists d. split; [exact Hd|].
         apply (Hin (render i) d); [|exact Hd]. apply in_map. now apply Hchar. }
       split; [exact H1|]. split; [|split; [exact Hman|]].
       - intros r i Hr Hh Hi He. destruct (H1 i (expressible_routed r i Hr Hh Hi He)) as [d [Hd (url & tg & Hu & Htg & Hs)]].
@@ -442,7 +488,7 @@ Section Compose.
       exists (config_text (map render is1)), t. split; [exact Htext|]. split; [exact Ht|].
       assert (forall i, routed_intent i -> exists d, parse_line pw (render i) = Ok (Some d) /\ def_target canon t d) as H1.
       { intros i Hi. pose proof Hi as [r [_ [_ [_ [_ Hv]]]]].
-        destruct (validate_good_line pw canon gl i Hv) as (_ & _ & d & Hd & _). exists d. split; [exact Hd|].
+        destruct (validate_good_line pw canon gl i (validate_intent_validate i Hv)) as (_ & _ & d & Hd & _). exists d. split; [exact Hd|].
         apply (Hin (render i) d); [|exact Hd]. apply in_map. now apply Hchar. }
       split; [exact H1|]. split; [|split; [intros d []|]].
       - intros r i Hr Hh Hi He. destruct (H1 i (expressible_routed r i Hr Hh Hi He)) as [d [Hd (url & tg & Hu & Htg & Hs)]].
@@ -502,6 +548,69 @@ Section Compose.
       exists m, T. split; [exact Ett|]. split; [reflexivity|].
       intros dm Hm Hadd. destruct (svc_table_with_manual m dm Hm Hadd) as (text' & t0 & Htext' & Ht & Hholds).
       rewrite Htext in Htext'. inversion Htext' as [E]. rewrite <- E, <- Ett, ET in Ht. now inversion Ht.
+    Qed.
+    (* ---- ANY manual text: where the targets of the table come from ---- *)
+    (* apart from weight and options a target is that of a routed intent of the state, or that
+       of a 'route add' of the manual text *)
+    Definition allowed_core (dm : list def) (c : tcore) : Prop :=
+      (exists i d url, routed_intent i /\ parse_line pw (render i) = Ok (Some d)
+                       /\ canon (d_dst d) = Some url /\ c = add_core d url)
+      \/ (exists d url, In d dm /\ d_cmd d = CmdAdd /\ canon (d_dst d) = Some url /\ c = add_core d url).
+
+    Lemma allowed_core_unfold dm c :
+      allowed_core dm c <->
+      (exists i d url, routed_intent i /\ parse_line pw (render i) = Ok (Some d)
+                       /\ canon (d_dst d) = Some url /\ c = add_core d url)
+      \/ (exists d url, In d dm /\ d_cmd d = CmdAdd /\ canon (d_dst d) = Some url /\ c = add_core d url).
+    Proof. reflexivity. Qed.
+
+    (* C01 for ANY manual text the parser accepts (route add / del / weight in any mix): the
+       table is the operator's commands applied in order to the table of the service routes,
+       and none of its targets belongs to anything but a routed intent of the state or a manual
+       'route add' - del and weight bring nothing in.  In particular an instance that is
+       unhealthy in the state has no target of its own, whatever the manual text. *)
+    Theorem svc_table_any_manual m T :
+      forall text, registry_config pw canon gl env prefix status strict checks rcat = Ok text ->
+      new_table pw canon gl (next_text text m) = Ok T ->
+      exists dm t0, parse pw m = Ok dm
+        /\ new_table pw canon gl text = Ok (sort_table t0)
+        /\ (do t <- run_from canon gl t0 dm; Ok (sort_table t))%outcome = Ok T
+        /\ forall x, In x (flat T) -> allowed_core dm (core x).
+    Proof.
+      intros text Htext HT. destruct registry_intents as (is1 & Htext' & Hgood & Hchar).
+      rewrite Htext in Htext'. inversion Htext' as [E]. subst text.
+      assert (exists dm, parse pw m = Ok dm) as [dm Hm].
+      { unfold new_table in HT. destruct (parse pw (next_text (config_text (map render is1)) m)) as [dall| |] eqn:Ep;
+          cbn [bind] in HT; try discriminate.
+        unfold parse, next_text in Ep. rewrite split_byte_app_sep in Ep.
+        apply (parse_lines_ok_app_r (split_byte (config_text (map render is1)) 10)). now rewrite Ep. }
+      destruct (manual_on_top (map render is1) m dm Hgood Hm) as (t0 & Hrun & Ht0 & Hcomb & Horig).
+      exists dm, t0. split; [exact Hm|]. split; [exact Ht0|]. rewrite <- Hcomb. split; [exact HT|].
+      rewrite Hcomb in HT. destruct (run_from canon gl t0 dm) as [t1| |] eqn:Er; cbn [bind] in HT; try discriminate.
+      inversion HT; subst T. intros x Hx. apply (proj1 (in_flat_sort _ _)) in Hx.
+      apply (run_from_origin canon gl (allowed_core dm) dm t0 t1); [| | |exact Er|exact Hx].
+      - unfold TableCmd.run in Hrun. eapply run_from_inv; [apply inv_nil | exact Hrun].
+      - intros y Hy. destruct (Horig y Hy) as (l & d & url & Hl & Hd & Hu & ->). left.
+        apply in_map_iff in Hl as [i [<- Hi]]. exists i, d, url. split; [now apply Hchar|]. split; [exact Hd|]. split; [exact Hu | apply core_trip].
+      - intros d url Hd Hc Hu. right. exists d, url. repeat split; assumption.
+    Qed.
+
+    (* ... so: from the delivery of the state's config on, until a newer service config arrives,
+       EVERY installed table - whatever the manual deliveries say - has only targets of routed
+       intents of that state and of manual 'route add's *)
+    Theorem unhealthy_absent_any_manual (w : wstate table) text h1 h2 tt :
+      registry_config pw canon gl env prefix status strict checks rcat = Ok text ->
+      forallb is_man h2 = true ->
+      In tt (installs table bld w (h1 ++ Svc text :: h2)) ->
+      In tt (installs table bld w h1) \/
+      exists m dm T, tt = next_text text m /\ parse pw m = Ok dm /\ new_table pw canon gl tt = Ok T /\
+                     forall x, In x (flat T) -> allowed_core dm (core x).
+    Proof.
+      intros Htext Hman Hin. rewrite installs_app in Hin. apply in_app_or in Hin as [Hin|Hin]; [now left|]. right.
+      destruct (installs_after_svc table bld _ _ _ Hman tt Hin) as [m [Ett Hb]].
+      unfold table_builder in Hb. destruct (new_table pw canon gl tt) as [T| |] eqn:ET; try congruence.
+      subst tt. destruct (svc_table_any_manual m T text Htext ET) as (dm & t0 & Hm & _ & _ & Hall).
+      exists m, dm, T. split; [reflexivity|]. split; [exact Hm|]. split; [reflexivity | exact Hall].
     Qed.
   End Headline.
 End Compose.
